@@ -445,7 +445,7 @@ impl Ctx {
             json!({"stream": stream, "input": input, "observed_kinds": [oa.gen.kind(), ob.gen.kind()]})
         };
         if retain.is_some() && self.c17 {
-            j["observed_retained_artefacts"] = arts.json(small);
+            j["observed_retained_artefacts"] = arts.json(true);
         }
         let i = self.shards.push(term, j.clone());
         self.meta.count(stream);
